@@ -73,9 +73,20 @@ register('C03', 'proof',
                       'an object invariant; the per-call clauses give: pop only when nothing is in flight + pickup order + all '
                       'commands of a group triggered in the same call. With the weak re-entrancy discipline assumed for '
                       'process_job, "commands in flight after next() come from the last popped group" is not provable',
-                      'Commander.next (application level, clause 3), Starter.store_application / start_applications (sequence 0 '
-                      'never planned, clause 1), Starter.after, ApplicationJobs.on_event / check: no '
-                      'contract yet (store_application needs comprehensions that allocate objects, not supported by the engine); '
+                      'fourth wave (contracts/c03_sequence.py, group commander_seq, decision facets whose call-outs are '
+                      'abstracted by their effect entry, nothing assumed of the re-entrant ones): Commander.next IS under '
+                      'contract (the sequence number picked is the lowest planned key and has left the plan when its jobs '
+                      'are triggered; a job is retired and passed to after() iff it is no longer in progress; every job of '
+                      'the picked group gets before() and next(); while every job in flight is in progress nothing is '
+                      'picked, emitted or changed), Starter.start_applications IS (an application is stored iff '
+                      'rules.start_sequence > 0 and never started / in failure; nothing triggered while the plan is built), '
+                      'Starter.store_application at KEY level only (stored iff a positive sequence number exists, under the key '
+                      'rules.start_sequence, plan keys = the positive keys of application.start_sequence). NOT decided: '
+                      'the per-process content of the plan (one command per process of the sequence: nothing is known of the '
+                      'lists built by the inner comprehension) and - refutability - mutants of store_application get no '
+                      'verdict within 150 s (recorded as undecided in mutants/C03.txt); KeyError of the `del` after the '
+                      're-entrant after() call-out is let escape (see C09); ApplicationStatus.update_sequences (keys by '
+                      'the processes own rules.start_sequence), Starter.after, ApplicationJobs.on_event / check: no contract; '
                       'ApplicationJobs.on_instances_invalidation IS under contract (contracts/c10.py: host lost = starting '
                       'failure for every dropped command, ABORT / STOP wipe the plan, STOP sets stop_request)',
                       'ApplicationStartJobs.process_job is taken by contract (assumed): its placement callees belong to C04/C14/C16',
@@ -98,10 +109,15 @@ register('C09', 'proof',
          'even when no process is reported lost).',
          not_decided=['"reaches the Master", exactly-once delivery to every live instance, true process states',
                       'clause 2 (on_restart / on_shutdown re-routing) and the ending states: other agent (statemachine.py)',
-                      'Stopper.store_application (commands only for running_identifiers), Commander.next at application level: '
-                      'no contract yet. A re-entrancy defect of Commander.next on the restart path is reproduced natively '
-                      '(findings/C09_restart_keyerror_demo.py: KeyError escapes fsm.on_process_state_event) but not yet an '
-                      'obligation',
+                      'Stopper.store_application (commands only for running_identifiers, keyed by stop_sequence): no '
+                      'registered contract (contracts/wip_c09_stopper_store_application.txt: constructors called inside a nested '
+                      'comprehension). Fourth wave (contracts/c03_sequence.py): Commander.next at application level IS under '
+                      'contract (Stopper variant: the greatest planned key is picked, only when no job in flight is in '
+                      'progress) and Stopper.stop_applications (store_application iff has_running_processes, nothing '
+                      'triggered while the plan is built). A re-entrancy defect of Commander.next on the restart path is '
+                      'reproduced natively (findings/C09_restart_keyerror_demo.py: KeyError of `del self.current_jobs[...]` '
+                      'after the re-entrant after() escapes fsm.on_process_state_event); the facets let KeyError escape: with '
+                      'raises=() the safe: obligation is not decided within 2 minutes, so it is still not an obligation',
                       'same ghost-history remark as C03',
                       'third wave: ApplicationJobs.add_commands (stop variant; contracts/c09_add_commands.py: a stop command is '
                       'only dropped as already planned when the job holds a command for the same process AND the same instance, '
